@@ -87,6 +87,7 @@ def run(ctx):
     tasks += [(shard_fetch, (lo, lo + 4096, ctx.shard_seed(lo + 1))) for lo in range(0, 65536, 4096)]
     tasks += [(chk.region_shard, ('vf.props.c07:SPEC32', i, 16, ctx.shard_seed(200 + i), ctx.n(24, 400))) for i in range(16)]
     tasks += [(chk.random_shard, ('vf.props.c07:SPEC32', ctx.shard_seed(300 + i), ctx.n(6000, 150000))) for i in range(16)]
+    tasks += [(chk.history_shard, ('vf.props.c07:SPEC32', 'vf.props.c06:SPEC', ctx.shard_seed(400 + i), ctx.n(3000, 60000))) for i in range(4)]
     ctx.pmap(_dispatch, tasks)
     ctx.acc.exhaustive = True
     ctx.acc.extra['exhaustive_part'] = 'all 16-bit halfwords; 32-bit class selection via the joint region partition; fetch-length rule over all first halfwords'
@@ -97,6 +98,9 @@ def _dispatch(fn, args):
 
 
 def replay(case, bucket=None):
+    if case.get('kind') == 'history':
+        from vf.props import c06
+        return chk.replay_history(SPEC32, c06.SPEC, case['word'])
     if case.get('kind') == 'fetch':
         a = shard_fetch(case['hw'], case['hw'] + 1, 1)
         return sorted(a.viol)
